@@ -458,6 +458,24 @@ Theorem C06_generic_fresh_identity :
 Proof. exact generic_fresh_identity. Qed.
 Print Assumptions C06_generic_fresh_identity.
 
+(* flip_coords = True (the transform acts on (z, y, x) coordinates): the traced sampling coordinates are pre-map in (x, y) order,
+   flip, transform, flip back, source map; for a transform that ignores the component order (identity / fresh transforms) they
+   coincide with the unflipped ones for any three grids *)
+Theorem C06_warp_coords_flip_traced :
+  forall (K : fld) (f : form) (ac : bool) (a : nat -> nat -> K) (tg g src : gridf) (x : nat -> K),
+  gen_warp_coords_flip2 f ac (gN 2 tg) (gS 2 tg) (gC 2 tg) (gD 2 tg) (gN 2 g) (gS 2 g) (gC 2 g) (gD 2 g)
+     (gN 2 src) (gS 2 src) (gC 2 src) (gD 2 src) (tab 2 (fcols 2 f) a) (vtab 2 x)
+  = warp_coords_flip 2 f ac (tab 2 (fcols 2 f) a) tg g src (vtab 2 x).
+Proof. exact gen_warp_coords_flip2_is_model. Qed.
+Print Assumptions C06_warp_coords_flip_traced.
+
+Theorem C06_warp_coords_flip_identity :
+  forall (K : fld) (D : nat) (f : form) (ac : bool) (M : list (list K)) (tg g src : gridf) (xc : list K),
+  (forall y, gen_forward D f M y = y) ->
+  warp_coords_flip D f ac M tg g src xc = warp_coords D f ac M tg g src xc.
+Proof. exact warp_coords_flip_identity. Qed.
+Print Assumptions C06_warp_coords_flip_identity.
+
 (* non-vacuity: a rotated anisotropic grid satisfies gwf, a non-trivial member list satisfies m_ok, and the world
    map of a non-trivial transform moves points *)
 Definition ex_grid : gridf (K:=QcF) :=
